@@ -207,7 +207,7 @@ Proof.
   change (x_dead (vol d q b)) with d.
   destruct (status_of b w) as [[|k|]|]; try (split; reflexivity).
   rewrite Hd. destruct (memN w (x_dead b)); [split; reflexivity|].
-  destruct (import_blocks _ _ _ _ _ _ _) as [[cs brs]|e]; [split; reflexivity|].
+  destruct (import_blocks _ _ _ _ _ _ _) as [[cs brs]|e]; [destruct (f_import_tipcheck fx && negb _); split; reflexivity|].
   destruct e; [split; reflexivity|split; reflexivity|]. destruct (f_import_retry fx); split; reflexivity.
 Qed.
 
@@ -219,7 +219,7 @@ Proof.
   intros fx p B n st w. unfold import_batch.
   destruct (status_of st w) as [[|k|]|]; try (split; reflexivity).
   destruct (memN w (x_dead st)); [split; reflexivity|].
-  destruct (import_blocks _ _ _ _ _ _ _) as [[cs brs]|e]; [split; reflexivity|].
+  destruct (import_blocks _ _ _ _ _ _ _) as [[cs brs]|e]; [destruct (f_import_tipcheck fx && negb _); split; reflexivity|].
   destruct e; [split; reflexivity|split; reflexivity|].
   destruct (f_import_retry fx); split; try reflexivity. discriminate.
 Qed.
@@ -231,7 +231,7 @@ Proof.
   intros fx p B n st w st' H. unfold import_batch in H.
   destruct (status_of st w) as [[|k|]|]; try (inversion H; reflexivity).
   destruct (memN w (x_dead st)); [inversion H; reflexivity|].
-  destruct (import_blocks _ _ _ _ _ _ _) as [[cs brs]|e]; [inversion H; reflexivity|].
+  destruct (import_blocks _ _ _ _ _ _ _) as [[cs brs]|e]; [destruct (f_import_tipcheck fx && negb _); inversion H; reflexivity|].
   destruct e; [inversion H; reflexivity|discriminate|]. destruct (f_import_retry fx); discriminate.
 Qed.
 
@@ -343,7 +343,8 @@ Proof.
   destruct (status_of st w) as [[|k|]|] eqn:Hs; try (intros; reflexivity).
   destruct (memN w (x_dead st)); [intros; reflexivity|].
   destruct (import_blocks _ _ _ _ _ _ _) as [[cs brs]|e].
-  - cbn [fst]. unfold status_of, with_status. cbn [x_status]. rewrite lookupN_setN_same.
+  - destruct (f_import_tipcheck fx && negb _); [intros; reflexivity|].
+    cbn [fst]. unfold status_of, with_status. cbn [x_status]. rewrite lookupN_setN_same.
     destruct (_ =? _); discriminate.
   - destruct e; [intros; reflexivity|intros; reflexivity|].
     destruct (f_import_retry fx); [intros; reflexivity|].
